@@ -7,7 +7,7 @@
    HandlerSpec.v   what the property demands of each handler (hand-written) *)
 From Coq Require Import ZArith List Bool String.
 From PK Require Import Policy.Policy Policy.PolicyProofs Policy.AccessTypes Policy.Access Policy.AccessProofs
-                       Policy.HandlerSpec Policy.HandlerSpecProofs.
+                       Policy.HandlerSpec Policy.HandlerSpecProofs Policy.DeniedLikeMissing.
 From PKGen Require Import HandlerAccessOps DefaultPolicies.
 Import ListNotations.
 Open Scope Z_scope.
@@ -191,14 +191,16 @@ Theorem denied_like_missing_primary : forall P id s s0 ph r h op rest u o,
 Proof. exact denied_like_missing_primary_l. Qed.
 Print Assumptions denied_like_missing_primary.
 
-(* NOT PROVED (kept visible): the same for every load site at once - the whole answer equals the
-   answer of the store without the ungranted object, up to PermissionDenied/ItemNotFound.  Covered for
-   the primary site above, for all sites by no_effect_without_grant (failure, nothing changes) and
-   on the implementation by the direct oracle of harness/c03.py. *)
-Definition denied_like_missing_statement : Prop := forall P id s ph r o,
-  In o (objs s) -> (forall op, addressed r ph s o op -> allowed_obj P id op o = false) ->
-  out_text (fst (step_item P id (s, ph) r))
-  = out_text (fst (step_item P id ({| objs := remove_uid (o_uid o) (objs s); dead := dead s |}, ph) r)).
+(* the same at EVERY load site at once (primary object, wrapping key of Get, bases of DeriveKey, ID
+   placeholder): as far as refusal texts go, the request is answered as if the objects the requester has
+   no grant for did not exist; PermissionDenied vs ItemNotFound is the only difference.  (That nothing
+   changes in the first run is no_effect_without_grant.) *)
+Theorem denied_like_missing : forall P id s ph r o,
+  wf_store s -> In o (objs s) ->
+  (forall op, addressed r ph s o op -> allowed_obj P id op o = false) ->
+  out_text (fst (step_item P id (s, ph) r)) = out_text (fst (step_item P id (without o s, ph) r)).
+Proof. exact denied_like_missing_l. Qed.
+Print Assumptions denied_like_missing.
 
 (* Full statement of the headline: an operation takes effect on, or is answered as passed for, an
    object only if the object's policy grants the operation to the requester. *)
